@@ -11,7 +11,48 @@ from sim import scenario as S
 # deterministic getter); every other parameter stays in the reference with its
 # default settings
 SAFE = ['planet_mass', 'planet_radius', 'T', 'clouds_pressure',
-        'atm_min_pressure', 'atm_max_pressure']
+        'atm_min_pressure', 'atm_max_pressure', 'He_H2', 'N2_H2']
+
+# What the components declare for a freshly built model (mode, fitted by
+# default, default bounds), written down from the decorators and
+# add_fittable_param calls: the tables a model offers are compared with THIS,
+# not only with themselves.
+EXPECTED_DEFAULTS = {
+    'planet_mass': ('linear', False, [0.5, 1.5]),
+    'planet_radius': ('linear', True, [0.9, 1.1]),
+    'planet_distance': ('linear', False, [1.0, 2.0]),
+    'planet_sma': ('linear', False, [1.0, 2.0]),
+    'T': ('linear', False, [300.0, 2000.0]),
+    'atm_min_pressure': ('log', False, [0.1, 1.0]),
+    'atm_max_pressure': ('log', False, [0.1, 1.0]),
+    'clouds_pressure': ('log', False, [0.001, 1000000.0]),
+    'He_H2': ('log', False, [1e-12, 0.1]),
+    'N2_H2': ('log', False, [1e-12, 0.1]),
+    'H2O': ('log', False, [1e-12, 0.1]),
+    'CH4': ('log', False, [1e-12, 0.1]),
+    'CO2': ('log', False, [1e-12, 0.1]),
+    'CO': ('log', False, [1e-12, 0.1]),
+}
+EXPECTED_DERIVED = {'mu': True, 'logg': False, 'avg_T': False,
+                    'metallicity': False, 'log_F_bol': False}
+
+
+def defaults_as_declared(model):
+    """None, or a message naming the first parameter whose default mode,
+    fit flag or bounds differ from what its component declares."""
+    for n, (mode, fit, bounds) in EXPECTED_DEFAULTS.items():
+        t = model.fittingParameters.get(n)
+        if t is None:
+            continue
+        got = (t[4], bool(t[5]), [float(x) for x in t[6]])
+        if got != (mode, fit, bounds):
+            return '%s: %r, declared %r' % (n, got, (mode, fit, bounds))
+    for n, comp in EXPECTED_DERIVED.items():
+        t = model.derivedParameters.get(n)
+        if t is not None and bool(t[3]) != comp:
+            return 'derived %s: compute=%r, declared %r' % (n, bool(t[3]),
+                                                           comp)
+    return None
 
 
 def gen_config(rng):
@@ -27,6 +68,12 @@ def gen_config(rng):
     mcfg['opac']['ngrid'] = rng.randint(8, 14)
     mcfg['tp'] = {'kind': 'isothermal', 'T': rng.uniform(600, 2200)}
     mcfg['clouds_pressure'] = 10 ** rng.uniform(1, 5)
+    if rng.random() < 0.35:
+        # three fill gases: two ratio parameters made in a loop
+        mcfg['fill'] = ['H2', 'He', 'N2']
+        mcfg['ratio'] = [rng.uniform(0.05, 0.3), rng.uniform(0.001, 0.05)]
+        mcfg['molecules'] = [m for m in mcfg['molecules']
+                             if m['name'] != 'N2']
     cfg = {'kind': 'real', 'model': mcfg, 'obs': S.gen_obs(rng, mcfg)}
     R.install_opacities(mcfg)
     model = R.build_model(mcfg, install=False)
